@@ -92,6 +92,47 @@ example : newV4 ["0"] [⟨1, "0", "s", "02", "", none⟩] "m" 0 true = .error (.
 example : newV4 [] [] "m" 1 true = .error .invalidUnit := rfl
 
 
+/-- `NewTokenV4` reports the error of the first proof (in input order) that fails a check, with the checks
+    of one proof in the order `C`, `e`, `s`, `r` non-empty, `r` (`toV4`) — before any keyset id is looked at. -/
+theorem newV4_first_error (ord : List String) (pre : List Proof) (p : Proof) (post : List Proof) (mint : String)
+    (dleq : Bool) (e : NewErr) (hpre : ∀ x ∈ pre, V4Acceptable dleq x) (hp : toV4 dleq p = .error e) :
+    newV4 ord (pre ++ p :: post) mint 0 dleq = .error e := by
+  simp [newV4, newV4With, buildMap_first_error dleq pre p post e hpre hp []]
+
+example : newV4 ["zz"] [⟨1, "zz", "s", "02", "", none⟩, ⟨2, "zz", "t", "0", "", none⟩, ⟨3, "zz", "u", "gg", "", none⟩] "m" 0 true
+    = .error (.invalidC .oddLength) := rfl
+
+/-- One group per keyset id, non-empty, holding exactly the proofs of that keyset. -/
+theorem newV4_groups (ord : List String) (ps : List Proof) (mint : String) (dleq : Bool) (t : TokenV4)
+    (hord : OrderOf ps ord) (h : newV4 ord ps mint 0 dleq = .ok t) :
+    t.tokenProofs.length = ord.length ∧
+    ∀ g ∈ t.tokenProofs, g.proofs ≠ [] ∧ ∃ k ∈ ord, hexDecode k = .ok g.id ∧
+      g.proofs.length = (ps.filter (fun p => p.id = k)).length := by
+  unfold newV4 newV4With at h
+  simp only [ne_eq, not_true_eq_false, if_false] at h
+  split at h
+  · cases h
+  · rename_i m hm
+    split at h
+    · cases h
+    · rename_i gs hgs
+      cases h
+      obtain ⟨_, h2, _⟩ := buildMap_ok dleq ps [] m hm
+      obtain ⟨h4, h5⟩ := buildGroups_length m ord gs hgs
+      refine ⟨h4, ?_⟩
+      intro g hg
+      obtain ⟨k, hk, hid, hpr⟩ := h5 g hg
+      have hlen : g.proofs.length = (ps.filter (fun p => p.id = k)).length := by
+        rw [hpr, h2 k]; simp [GoMap.get]
+      refine ⟨?_, k, hk, hid, hlen⟩
+      obtain ⟨p, hp, hpk⟩ := (hord.2 k).1 hk
+      intro hnil
+      rw [hnil] at hlen
+      have : p ∈ ps.filter (fun p => p.id = k) := List.mem_filter.2 ⟨hp, by simp [hpk]⟩
+      have := List.length_pos_of_mem this
+      simp at hlen
+      omega
+
 /-- **V4 round trip, any accepted input (hex of either case).**  `ord` is the order in which Go's map
     iteration visits the keyset ids (any enumeration of the distinct ids of `ps`).  If `NewTokenV4` returns `t`
     and `cbor.Unmarshal` inverts `cbor.Marshal` on `t`, then `DecodeToken (t.Serialize())` is exactly `t`; its
@@ -247,6 +288,19 @@ theorem decode_total (cod : Codec) (s : String) : Total cod (decodeToken cod s) 
     obtain ⟨t3, ht, hnil, _⟩ := (mint_panic_iff t p).1 hp
     subst ht
     exact decodeTokenBytes_ok_v3 cod _ t3 h hnil
+
+/-- `decode_total` for arbitrary Go strings (any byte sequence, valid UTF-8 or not). -/
+theorem decode_total_bytes (cod : Codec) (s : Bytes) : Total cod (decodeTokenBytes cod s) := by
+  cases h : decodeTokenBytes cod s with
+  | panic p => exact absurd h (decodeTokenBytes_no_panic cod _ p)
+  | err e => trivial
+  | ok t =>
+    refine ⟨fun p hp => ?_, fun p => serialize_no_panic cod t p⟩
+    obtain ⟨t3, ht, hnil, _⟩ := (mint_panic_iff t p).1 hp
+    subst ht
+    exact decodeTokenBytes_ok_v3 cod _ t3 h hnil
+
+example : decodeTokenBytes (codEx default default) [0xff, 0xfe, 0x00] = .err .invalidTokenV3 := by decide
 
 /-- The same, spelled out: no panic; and on success `Mint()` and `Serialize()` return (`Proofs()` and
     `Amount()` are total functions of the model: their Go loops contain no index expression, see
